@@ -12,6 +12,7 @@
 #include <sstream>
 #include <sys/stat.h>
 #include <sys/wait.h>
+#include <fcntl.h>
 #include <poll.h>
 #include <unistd.h>
 
@@ -52,9 +53,19 @@ static void drop_rank(Program &p) {
     std::vector<sim::Fault> fl; for (auto &f : p.faults) if (f.rank < np) fl.push_back(f); p.faults = fl;
     if (p.cfg.sim.starve_rank >= np) p.cfg.sim.starve_rank = -1;
 }
+// does the program crash the process (signal / sanitizer exit)? evaluated in a forked child
+static bool crashes_in_child(const Profile &pf, const Program &p) {
+    fflush(stdout); fflush(stderr);
+    pid_t pid = fork();
+    if (pid == 0) { int dn = open("/dev/null", O_WRONLY); if (dn >= 0) { dup2(dn, 1); dup2(dn, 2); } Program c = p; pf.check(c); _exit(0); }
+    int st = 0; waitpid(pid, &st, 0);
+    return WIFSIGNALED(st) || (WIFEXITED(st) && (WEXITSTATUS(st) == 77 || WEXITSTATUS(st) == 134));
+}
 static Program shrink(const Profile &pf, const Program &orig, const std::string &sig, int budget, int &reruns) {
     Program best = orig; reruns = 0;
-    auto still = [&](Program &cand) { if (reruns >= budget) return false; reruns++; Program c = cand; return run_sig(pf, c) == sig; };
+    bool crash_mode = (sig == "crash");
+    auto run_once = [&](Program &c, RunResult *out) -> std::string { if (crash_mode) return crashes_in_child(pf, c) ? "crash" : ""; return run_sig(pf, c, out); };
+    auto still = [&](Program &cand) { if (reruns >= budget) return false; reruns++; Program c = cand; return run_once(c, nullptr) == sig; };
     // faults are attached to op indices: removing ops must renumber them
     auto remove_ops = [&](const Program &p, size_t lo, size_t hi) {
         Program c = p; c.ops.erase(c.ops.begin() + lo, c.ops.begin() + hi);
@@ -92,7 +103,7 @@ static Program shrink(const Profile &pf, const Program &orig, const std::string 
     // 5. explicit schedule, then drop deviations
     if (best.cfg.sim.nprocs > 1 && !best.cfg.sim.explicit_schedule && reruns < budget) {
         Program c = best; RunResult r; reruns++;
-        if (run_sig(pf, c, &r) == sig) {
+        if (!crash_mode && run_sig(pf, c, &r) == sig) {
             Program e = best; e.cfg.sim.explicit_schedule = true; e.cfg.sim.deviations = r.deviations; e.cfg.sim.deviate = 0; e.cfg.sim.starve_rank = -1;
             if (still(e)) {
                 best = e;
@@ -217,6 +228,7 @@ struct WorkerProc { pid_t pid = -1; int fd = -1; std::string buf; uint64_t cur_s
 int check_main(int argc, char **argv) {
     if (argc >= 3 && !strcmp(argv[1], "replay")) { bool quiet = argc > 3 && !strcmp(argv[3], "--quiet"); return replay_file(argv[2], quiet); }
     if (argc >= 2 && !strcmp(argv[1], "list")) { for (auto &id : all_profile_ids()) printf("%s\n", id.c_str()); return 0; }
+    if (argc >= 4 && !strcmp(argv[1], "crashtest")) { const Profile *pf = find_profile(argv[2]); if (!pf) return 2; Program p = pf->gen(strtoull(argv[3], nullptr, 10), false); printf("crashes_in_child=%d\n", (int)crashes_in_child(*pf, p)); return 0; }
     if (argc >= 4 && !strcmp(argv[1], "print")) { const Profile *pf = find_profile(argv[2]); if (!pf) return 2; Program p = pf->gen(strtoull(argv[3], nullptr, 10), argc > 4); Model m; annotate(m, p); printf("%s\n", program_to_text(p, 500).c_str()); return 0; }
     if (argc >= 4 && !strcmp(argv[1], "show")) {   // show <id> <seed>: print the generated program and run it once
         const Profile *pf = find_profile(argv[2]); if (!pf) return 2;
@@ -326,6 +338,8 @@ int check_main(int argc, char **argv) {
         if (f.kind == "crash") {
             // reproduce in a fresh process by replaying the unshrunk program(s) of that seed
             RunResult dummy; sim::ViolationInfo v; v.kind = "crash"; v.detail = f.detail; dummy.violations.push_back(v);
+            if (f.variant >= 0 && pf->variants) { /* variant crashes are handled below */ }
+            else if (crashes_in_child(*pf, p)) { int rr = 0; Program small = shrink(*pf, p, "crash", 200, rr); printf("  (crashing program shrunk %zu -> %zu ops in %d forked re-runs)\n  program: %s\n", p.ops.size(), small.ops.size(), rr, program_to_text(small, 40).c_str()); p = small; }
             std::string path = write_replay(id, p, dummy, "crash", verif_dir() + "/out/replay", std::to_string(f.seed) + "-crash");
             std::string o; int rc = replay_fresh(path, &o);
             if (rc >= 128 || rc == 77 || rc == 134) { printf("VIOLATION property=%s replay=%s\n  crash: %s (seed %llu; the replay crashes again in a fresh process, exit %d)\n%s\n", id.c_str(), path.c_str(), f.detail.c_str(), (unsigned long long)f.seed, rc, o.substr(0, 3000).c_str()); violations++; exit_code = 1; replay_paths.push_back(path); }
